@@ -582,7 +582,11 @@ func (eng *Engine) execUnOp(t *ssa.UnOp, env *Env) []*Env {
 	case token.NOT:
 		x := eng.val(env, t.X)
 		if x.K == KBool {
-			env.vals[t] = boolAV(triNot(x.B))
+			r := boolAV(triNot(x.B))
+			if x.Expr != "" {
+				r.Expr = "!" + x.Expr
+			}
+			env.vals[t] = r
 		} else {
 			env.vals[t] = boolAV(triU)
 		}
@@ -677,7 +681,41 @@ func parseConst(s string) constant.Value {
 	return c
 }
 
+func exprOf(a AV) string {
+	if a.Expr != "" {
+		return a.Expr
+	}
+	if s, ok := a.single(); ok {
+		return s
+	}
+	return ""
+}
+
 func (eng *Engine) binop(env *Env, t *ssa.BinOp) AV {
+	r := eng.binop0(env, t)
+	x, y := eng.val(env, t.X), eng.val(env, t.Y)
+	ex, ey := exprOf(x), exprOf(y)
+	if ex == "" || ey == "" || (x.Expr == "" && y.Expr == "") {
+		return r
+	}
+	key := "(" + ex + " " + t.Op.String() + " " + ey + ")"
+	switch r.K {
+	case KBool:
+		if r.B == triU {
+			if v, ok := env.pure[key]; ok {
+				r.B = v
+			}
+			r.Expr = key
+		}
+	case KNum:
+		if r.Set == nil && (t.Op == token.ADD || t.Op == token.SUB) {
+			r.Expr = key
+		}
+	}
+	return r
+}
+
+func (eng *Engine) binop0(env *Env, t *ssa.BinOp) AV {
 	x, y := eng.val(env, t.X), eng.val(env, t.Y)
 	isCmp := false
 	switch t.Op {
